@@ -197,7 +197,7 @@ def c01() -> int:
                 Finding(
                     "C01",
                     ("diverges", sc),
-                    f"scenario {sc}: the process with hash seed {s2} (TZ={process_tz(s2)}) differs from the one with hash seed {base} (TZ={process_tz(base)}) at step {step} ({kind}); {len(diverged[sc])} of {runs_done[sc]} seeds diverge, {len(outcomes[sc])} distinct simulations. {detail}",
+                    f"scenario {sc}: the process with hash seed {s2} (TZ={process_tz(s2)}{', launched from a directory holding stray files named like the default assets' if s2 % 3 == 1 else ''}) differs from the one with hash seed {base} (TZ={process_tz(base)}{', launched from a directory holding stray files named like the default assets' if base % 3 == 1 else ''}) at step {step} ({kind}); {len(diverged[sc])} of {runs_done[sc]} seeds diverge, {len(outcomes[sc])} distinct simulations. {detail}",
                     {"engine": "ord", "scenario": sc, "seeds": [base, s2], "step": step},
                 )
             )
